@@ -97,7 +97,7 @@ FAMILIES = {
         rule='backlog states around the queue limit (50) and the in-flight limit (100), dispatch from main code and from handlers; '
              'non-trivial: a dispatch is rejected'),
     'C15': dict(
-        gens=[('core', dict(p_waitidle=0.35, tasklen=(2, 8), ntasks=(1, 3)), 0.35), ('core', dict(p_waitidle=0.3, p_timeout=0.4), 0.15),
+        gens=[('core', dict(p_waitidle=0.35, tasklen=(2, 8), ntasks=(1, 3)), 0.31), ('retrychain', dict(), 0.04), ('core', dict(p_waitidle=0.3, p_timeout=0.4), 0.15),
               ('chain', dict(p_timeout=0.3), 0.15), ('idle', dict(), 0.2), ('backlog', dict(p_waitidle=1.0), 0.1), ('parraise', dict(idle=True), 0.05), ('cycle', dict(), 0.04),
               ('core', dict(p_wal=0.8, p_payload=0.8, p_waitidle=0.4, tasklen=(2, 7)), 0.06)],
         facets=['idle', 'unfinished', 'queue', 'rest', 'history', 'results', 'activation', 'harness', 'other', 'runloop', 'recursion', 'timeout'],
